@@ -25,7 +25,7 @@ static std::vector<Cell> build_cells(bool thorough) {
   std::vector<Cfg> cfgs;
   if (!thorough) cfgs = {{5, 300, NMULTS - 1}, {7, 300, NMULTS - 1}, {9, 200, NMULTS - 1}, {11, 200, NMULTS - 3}};
   else cfgs = {{5, 3000, NMULTS - 1}, {6, 3000, NMULTS - 1}, {7, 3000, NMULTS - 1}, {8, 3000, NMULTS - 1}, {9, 3000, NMULTS - 1},
-               {10, 3000, NMULTS - 1}, {11, 2000, NMULTS - 1}, {12, 1500, NMULTS - 1}, {14, 600, NMULTS - 3}};
+               {10, 2000, NMULTS - 1}, {11, 1500, NMULTS - 1}, {12, 1000, NMULTS - 1}, {14, 600, NMULTS - 3}};
   for (int f = 0; f < F_N; ++f)
     for (auto& c : cfgs)
       for (int mi = 0; mi <= c.max_mi; ++mi) {
